@@ -59,7 +59,9 @@ func runConfine(r *run) error {
 		pre    []hEntry                    // entries sent before the hostile one
 		subdir string                      // daemon: module subdirectory argument
 	}
-	dirE := func(n string) hEntry { return hEntry{NameHex: hx(n), Mode: sIFDIR | 0o755, Len: 4096, Mtime: victimMtime} }
+	dirE := func(n string) hEntry {
+		return hEntry{NameHex: hx(n), Mode: sIFDIR | 0o755, Len: 4096, Mtime: victimMtime}
+	}
 	vectors := []vector{
 		{name: "dotdot", prefix: func(string) string { return "../outside/" }},
 		{name: "absolute", prefix: func(o string) string { return o + "/" }},
